@@ -45,15 +45,78 @@ package keeper
 //@         && (forall d: str :: {$bal[fromBech32(state.Account.Id)][d]} $bal[fromBech32(state.Account.Id)][d] == old($bal[fromBech32(state.Account.Id)][d]) + truncInt(old(state.Remains[d])))
 //@         && (forall a: str :: {$bal[a]} a != MAIN() && a != fromBech32(state.Account.Id) ==> $bal[a] == old($bal[a])))
 //@   prop C14 C01 C10
+//@ // ---- the state list: lookup and sums (C03 / C04) ----
+//@ // total remains of denom d over the first n states of a row
+//@ spec func sumRem(row [int][str]int, d str, n int) int = n <= 0 ? 0 : sumRem(row, d, n - 1) + row[n - 1][d]
+//@ lemma sumRemStore(row [int][str]int, d str, n int, pos int, v [str]int)
+//@   induction n
+//@   requires n >= 0
+//@   ensures sumRem(store(row, pos, v), d, n) == sumRem(row, d, n) + ((0 <= pos && pos < n) ? v[d] - row[pos][d] : 0)
+//@   prop C03
+//@ pred statesHaveAccounts(s) = forall k: int :: {s[k].Account} 0 <= k && k < len(s) ==> s[k].Account != nil
+//@ func findAccountState(states, account) (pos)
+//@   requires states != nil && account != nil && statesHaveAccounts(*states)
+//@   ensures -1 <= pos && pos < len(*states)
+//@   ensures pos >= 0 ==> (*states)[pos].Account.Id == account.Id
+//@   ensures pos == -1 ==> (forall k: int :: {(*states)[k].Account} 0 <= k && k < len(*states) ==> (*states)[k].Account.Id != account.Id)
+//@   prop C03 C04 C10
+//@ loop findAccountState#1
+//@   invariant -1 <= \i - 1 && \i <= len(*states)
+//@   invariant forall k: int :: {(*states)[k].Account} 0 <= k && k < \i ==> (*states)[k].Account.Id != account.Id
+//@ func findBurnState(states) (pos)
+//@   requires states != nil
+//@   ensures -1 <= pos && pos < len(*states)
+//@   ensures pos >= 0 ==> (*states)[pos].Burn
+//@   ensures pos == -1 ==> (forall k: int :: {(*states)[k].Burn} 0 <= k && k < len(*states) ==> !(*states)[k].Burn)
+//@   prop C03 C04 C10
+//@ loop findBurnState#1
+//@   invariant 0 <= \i && \i <= len(*states)
+//@   invariant forall k: int :: {(*states)[k].Burn} 0 <= k && k < \i ==> !(*states)[k].Burn
+
+//@ pred allPositive(c) = c != zeroCoins() && (forall d: str :: {c[d]} c[d] >= 0)
 //@ func calculatePercentage(sharePercent, coinsToDistributeDec) (res)
 //@   requires !sharePercent.IsNil()
-//@   ensures (forall d: str :: {res[d]} res[d] == 0) || (forall d: str :: {res[d]} res[d] == truncInt(coinsToDistributeDec[d] * sharePercent))
+//@   ensures allPositive(coinsToDistributeDec) ==> (forall d: str :: {res[d]} {coinsToDistributeDec[d]} res[d] == truncInt(coinsToDistributeDec[d] * sharePercent))
+//@   ensures !allPositive(coinsToDistributeDec) ==> res == zeroCoins()
 //@   prop C04 C10
 
+//@ // sum of the amounts of the first n Distribution events of a list (ptrs: the list's element row, amt: Distribution.Amount column)
+//@ spec func sumDist(ptrs [int]int, amt [int][str]int, d str, n int) int = n <= 0 ? 0 : sumDist(ptrs, amt, d, n - 1) + amt[ptrs[n - 1]][d]
+//@ lemma sumDistFrameAmt(ptrs [int]int, amt [int][str]int, d str, n int, r int, v [str]int)
+//@   induction n
+//@   requires n >= 0 && (forall k: int :: {ptrs[k]} 0 <= k && k < n ==> ptrs[k] != r)
+//@   ensures sumDist(ptrs, store(amt, r, v), d, n) == sumDist(ptrs, amt, d, n)
+//@   prop C18
+//@ lemma sumDistFramePtrs(ptrs [int]int, amt [int][str]int, d str, n int, pos int, x int)
+//@   induction n
+//@   requires n >= 0 && pos >= n
+//@   ensures sumDist(store(ptrs, pos, x), amt, d, n) == sumDist(ptrs, amt, d, n)
+//@   prop C18
+//@ pred sharesUsable(sd) = !sd.Destinations.BurnShare.IsNil()
+//@   && (forall k: int :: {sd.Destinations.Shares[k]} 0 <= k && k < len(sd.Destinations.Shares) ==> sd.Destinations.Shares[k] != nil && !sd.Destinations.Shares[k].Share.IsNil())
+//@ pred distAllocated(ds) = forall k: int :: {ds[k]} 0 <= k && k < len(ds) ==> ds[k] != nil && allocated(ds[k])
+
+//@ // One sub-distributor's step: every coin of the inflow is booked to exactly one state (books), is reported by exactly one
+//@ // event (events), and the burn event carries the truncated burn share of the inflow.
 //@ func (k Keeper) StartDistributionProcess(ctx, states, coinsToDistributeDec, subDistributor) (localRemains, distributions, burn)
-//@   requires states != nil
-//@   ensures true
-//@   prop C04 C10
+//@   requires states != nil && off(*states) == 0 && statesHaveAccounts(*states) && sharesUsable(subDistributor)
+//@   requires allPositive(coinsToDistributeDec)
+//@   uses forall row: [int][str]int, pos: int, v: [str]int, d: str, n: int :: {sumRem(store(row, pos, v), d, n)} sumRemStore(row, d, n, pos, v)
+//@   uses forall ptrs: [int]int, amt: [int][str]int, d: str, n: int, r: int, v: [str]int :: {sumDist(ptrs, store(amt, r, v), d, n)} sumDistFrameAmt(ptrs, amt, d, n, r, v)
+//@   uses forall ptrs: [int]int, amt: [int][str]int, d: str, n: int, pos: int, x: int :: {sumDist(store(ptrs, pos, x), amt, d, n)} sumDistFramePtrs(ptrs, amt, d, n, pos, x)
+//@   ensures localRemains != nil && off(*localRemains) == 0 && statesHaveAccounts(*localRemains) && len(*localRemains) >= old(len(*states))
+//@   ensures [books] forall d: str :: subDistributor.Destinations.PrimaryShare.Type != "MAIN" ==>
+//@       sumRem(fieldRow(*localRemains, "Remains"), d, len(*localRemains)) == old(sumRem(fieldRow(*states, "Remains"), d, len(*states))) + coinsToDistributeDec[d]
+//@   ensures [events] forall d: str :: subDistributor.Destinations.PrimaryShare.Type != "MAIN" ==>
+//@       sumDist(elemRow(distributions), heapOf("types.Distribution", "Amount"), d, len(distributions)) + (burn != nil ? burn.Amount[d] : 0) == coinsToDistributeDec[d]
+//@   ensures [burn-amount] burn != nil ==> (forall d: str :: {burn.Amount[d]} burn.Amount[d] == truncInt(coinsToDistributeDec[d] * subDistributor.Destinations.BurnShare))
+//@   ensures [burn-reported] burn == nil ==> (forall d: str :: truncInt(coinsToDistributeDec[d] * subDistributor.Destinations.BurnShare) == 0)
+//@   prop C03 C04 C18 C01
+//@ loop Keeper.StartDistributionProcess#1
+//@   invariant localRemains != nil && off(*localRemains) == 0 && statesHaveAccounts(*localRemains) && len(*localRemains) >= old(len(*states))
+//@   invariant distAllocated(distributions) && off(distributions) == 0
+//@   invariant forall d: str :: sumRem(fieldRow(*localRemains, "Remains"), d, len(*localRemains)) + defaultShare[d] == old(sumRem(fieldRow(*states, "Remains"), d, len(*states))) + coinsToDistributeDec[d]
+//@   invariant forall d: str :: sumDist(elemRow(distributions), heapOf("types.Distribution", "Amount"), d, len(distributions)) + defaultShare[d] == coinsToDistributeDec[d]
 
 //@ // ---- C13: only governance changes the parameters; what is stored was validated; a rejected update changes nothing ----
 //@ spec func dpKey() str = global("types.ParamsKey")
